@@ -563,7 +563,9 @@ class Model(Object):
 
             else:
                 for x2 in list(x._reaction):  # noqa W0212
-                    x2.remove_from_model()
+                    # the metabolite may also be used by reactions outside the model
+                    if x2._model is self:  # noqa W0212
+                        x2.remove_from_model()
 
         self.metabolites -= metabolite_list
 
